@@ -4,8 +4,8 @@ import ScyllaVerif.Model.Speculative
 
 * `ign <ok|ErrorName>`                          — `canBeIgnored`;
 * `spec <max> <interval> <delay>:<outcome> …`   — `execute` over scripted fibers in virtual time;
-* `gate <idem> <none|max:interval> <conn>:<delay>:<outcome>:<decision> …` — the gate + shared plan + fibers
-  that walk the plan (`execution.rs:519-644` with the harness's scripted retry policy).
+* `gate <idem>[/<timeout>] <none|max:interval> <conn>:<delay>:<outcome>:<decision> …` — the gate (+ optional
+  client-side request timeout) + shared plan + fibers that walk the plan (`execution.rs:519-644` with the harness's scripted retry policy).
 
 The driver owns the *clock* and the scripted behaviour of the fibers; everything the property is about goes
 through `Speculative.step`: the driver only decides which event happens next (the earliest pending wake-up;
@@ -79,6 +79,7 @@ structure World where
   now : Nat
   deadline : Nat
   interval : Nat
+  reqDeadline : Option Nat   -- client-side request timeout (virtual ms)
   fibers : List Fiber
   starts : List Nat          -- reversed
   seen : List Nat            -- reversed
@@ -184,18 +185,22 @@ def explore : Nat → World → List String
     match w.st.returned with
     | some r => [render w r]
     | none =>
-      let timer : List (Nat × Option Fiber) := if w.st.sleepArmed then [(w.deadline, none)] else []
-      let cands := timer ++ w.fibers.map (fun f => (f.wakeAt, some f))
+      let timer : List (Nat × Option (Option Fiber)) := if w.st.sleepArmed then [(w.deadline, some none)] else []
+      let dl : List (Nat × Option (Option Fiber)) := match w.reqDeadline with
+        | some d => [(d, none)]
+        | none => []
+      let cands := dl ++ timer ++ w.fibers.map (fun f => (f.wakeAt, some (some f)))
       if cands.isEmpty then ["HANG"] else
       let t := minOf (cands.map (·.1))
       let w := { w with now := t }
       (cands.filter (·.1 == t)).flatMap fun c =>
         match c.2 with
-        | none => explore fuel w.fireTimer
-        | some f => explore fuel (w.runFiber f)
+        | none => explore fuel (w.apply .deadline)
+        | some none => explore fuel w.fireTimer
+        | some (some f) => explore fuel (w.runFiber f)
 
-def mkWorld (mode : Mode) (st : St Pay Nat) (interval : Nat) : World :=
-  { mode := mode, st := st, now := 0, deadline := interval, interval := interval,
+def mkWorld (mode : Mode) (st : St Pay Nat) (interval : Nat) (reqDeadline : Option Nat) : World :=
+  { mode := mode, st := st, now := 0, deadline := interval, interval := interval, reqDeadline := reqDeadline,
     fibers := [{ id := 0, wakeAt := 0, pc := .fresh, lastErr := none }], starts := [0], seen := [], atts := [], mo := 0 }
 
 def check (outs : List String) (impl : String) : String :=
@@ -236,6 +241,9 @@ def parseTarget (tok : String) : Option TargetScript :=
     | _, _, _, _ => none
   | _ => none
 
+def parseBit (s : String) : Option Bool :=
+  if s == "1" then some true else if s == "0" then some false else none
+
 def parsePolicy (s : String) : Option (Option (Nat × Nat)) :=
   if s == "none" then some none
   else match s.splitOn ":" with
@@ -254,16 +262,21 @@ def run (case impl : String) : String :=
   | "spec" :: m :: i :: toks =>
     match m.toNat?, i.toNat?, parseSpecToks 0 toks with
     | some m, some i, some script =>
-      let w := mkWorld (.spec script) (initSpec m []) i
+      let w := mkWorld (.spec script) (initSpec m false []) i none
       check (explore (8 * (m + 4)) w) impl
     | _, _, _ => "bad-case"
   | "gate" :: idem :: pol :: toks =>
-    let idem := if idem == "1" then some true else if idem == "0" then some false else none
-    match idem, parsePolicy pol, toks.mapM parseTarget with
-    | some idem, some pol, some targets =>
+    let idemTo : Option (Bool × Option Nat) := match idem.splitOn "/" with
+      | [b] => (parseBit b).map (fun b => (b, none))
+      | [b, t] => match parseBit b, t.toNat? with
+        | some b, some t => some (b, some t)
+        | _, _ => none
+      | _ => none
+    match idemTo, parsePolicy pol, toks.mapM parseTarget with
+    | some (idem, timeout), some pol, some targets =>
       let plan := List.range targets.length
-      let st : St Pay Nat := init idem (pol.map (·.1)) plan
-      let w := mkWorld (.gate targets) st ((pol.map (·.2)).getD 0)
+      let st : St Pay Nat := init idem (pol.map (·.1)) timeout.isSome plan
+      let w := mkWorld (.gate targets) st ((pol.map (·.2)).getD 0) timeout
       check (explore (8 * (targets.length + (pol.map (·.1)).getD 0 + 4)) w) impl
     | _, _, _ => "bad-case"
   | _ => "bad-case"
